@@ -540,6 +540,7 @@ func (ev *Ev) evalArgs(x *ast.CallExpr, sig *types.Signature) []Value {
 
 // havocHeap forgets all non-ghost heap knowledge (effect of unknown code).
 func (u *Unit) havocHeap(st *State, why string) {
+	st.heapEpoch++
 	u.eng.mu.Lock()
 	fams := make(map[string]Sort, len(u.eng.famSorts))
 	for k, s := range u.eng.famSorts {
@@ -553,8 +554,8 @@ func (u *Unit) havocHeap(st *State, why string) {
 		if strings.HasPrefix(k, "CH:") && u.c != nil && u.c.Flags["private_channels"] {
 			continue // the unit's channels never escape to the code being called (stated assumption of the unit)
 		}
-		if _, touched := st.heap[k]; !touched && !u.declared[quote(k+"@0")] {
-			continue
+		if _, touched := st.heap[k]; !touched {
+			continue // first read after this point yields the new epoch's version
 		}
 		u.havocFam(st, k, fams[k])
 	}
@@ -1089,12 +1090,13 @@ func f0(key string) string {
 }
 
 func (u *Unit) havocGhosts(st *State) {
+	st.ghostEpoch++
 	for _, g := range u.eng.cs.GhostOrder {
 		key := "G:" + g.Name
 		u.eng.mu.Lock()
 		s, ok := u.eng.famSorts[key]
 		u.eng.mu.Unlock()
-		if ok {
+		if _, touched := st.heap[key]; ok && touched {
 			u.havocFam(st, key, s)
 		}
 	}
@@ -1320,7 +1322,9 @@ func (u *Unit) syncCall(ev *Ev, x *ast.CallExpr, f *types.Func, recv *Value) (Va
 				ev.assignLV(lv, nv)
 				return nv, true
 			case strings.HasPrefix(name, "Load"):
-				return ev.readLV(lv), true
+				lvv := ev.readLV(lv)
+				u.typeFacts(ev.st, lvv) // a machine cell holds a value of its type
+				return lvv, true
 			case strings.HasPrefix(name, "Store"):
 				ev.assignLV(lv, ev.expr(x.Args[1]))
 				return Value{K: vTuple}, true
